@@ -10,7 +10,7 @@ import z3
 from .pyvc import core, source
 from .pyvc.builtins_model import Builtins
 from .pyvc.values import *  # noqa: F401,F403
-from .solve import Obligation, prove
+from .solve import Obligation, prove, prove_groups
 
 REGISTRY = {}        # (class or None, function name) -> Contract instance
 BY_ID = {}           # "path:qualname" -> Contract
@@ -207,7 +207,7 @@ def generate(contract, ov):
     return cx, obs, meta
 
 
-def verify_unit(contract, ov, timeout_ms=None):
+def verify_unit(contract, ov, timeout_ms=None, workers=1):
     ur = UnitResult(contract, ov)
     t0 = time.time()
     try:
@@ -216,15 +216,17 @@ def verify_unit(contract, ov, timeout_ms=None):
         ur.hints = sorted(set(cx.hints))
         ur.notes = list(cx.notes)
         axioms = list(cx.axioms) + cx.distinct_consts_axiom()
-        proved = {}      # lemma chaining: conjuncts of one clause on one path, earlier ones become hypotheses
+        groups, bychain = [], {}
         for ob in obs:
             ch = ob.meta.get("chain")
-            if ch is not None and proved.get(ch):
-                ob.hyps = ob.hyps + proved[ch]
-            r = prove(ob, axioms, timeout_ms or contract.timeout_ms)
-            ur.results.append(r)
-            if ch is not None and r.status == "discharged":
-                proved.setdefault(ch, []).append(ob.goal)
+            if ch is None:
+                groups.append([ob])
+            elif ch in bychain:
+                bychain[ch].append(ob)
+            else:
+                bychain[ch] = [ob]
+                groups.append(bychain[ch])
+        ur.results = prove_groups(groups, axioms, timeout_ms or contract.timeout_ms, workers)
         if not obs:
             ur.undecided_reason = "no obligations generated"
     except Unsupported as e:
